@@ -626,6 +626,14 @@ func (s *Server) Dump(ns string) []bson.D {
 	return append([]bson.D{}, s.colls[ns]...)
 }
 
+// DeleteAll removes every document of a collection (the harness emulating work that never happened).
+func (s *Server) DeleteAll(db, coll string) {
+	s.mu.Lock()
+	delete(s.colls, db+"."+coll)
+	s.colls[db+"."+coll] = nil
+	s.mu.Unlock()
+}
+
 // Close stops the server and drops its connections.
 func (s *Server) Close() {
 	s.ln.Close()
